@@ -2,6 +2,7 @@
   C04/Theorems — the ledger for property C04.  Every `theorem` here is audited.
 -/
 import OttoVerif.C04.Spec
+import OttoVerif.C04.EarlySpec
 namespace OttoVerif.C04.Thm
 open OttoVerif.C04 OttoVerif.C04.Spec
 
@@ -89,5 +90,125 @@ def wEmptyProg : T := .node .Program 0 0 0 .nil
 example : idx0 wEmptyProg = none ∧ idx1 wEmptyProg = none := by decide
 /-- non-vacuity: a tree without typed nils whose walk is nil-free and complete -/
 example : tnilCount (.node .ExpressionStatement 0 0 0 (.cons (.node .Identifier 1 0 1 .nil) .nil)) = 0 := by decide
+
+/-! ### early errors (jump statements, labels, return, try) -/
+
+theorem inv_drop {c : Ctx} {p : List Nat} (h : Inv c p) : Inv c [] := ⟨h.1, by simp⟩
+
+theorem inv_loop {c : Ctx} {p : List Nat} (h : Inv c p) : Inv (c.loopBody p) [] := by
+  refine ⟨fun l hl => ?_, by simp⟩
+  simp only [Ctx.loopBody, List.mem_append] at hl ⊢
+  rcases hl with hl | hl
+  · exact ⟨h.2 l hl, trivial⟩
+  · exact ⟨(h.1 l hl).1, trivial⟩
+
+theorem inv_switch {c : Ctx} {p : List Nat} (h : Inv c p) : Inv c.switchBody [] := ⟨h.1, by simp⟩
+
+theorem inv_fn (c : Ctx) : Inv c.fnBody [] := ⟨by simp [Ctx.fnBody], by simp⟩
+
+theorem inv_push {c : Ctx} {p : List Nat} (h : Inv c p) (l : Nat) : Inv (c.push l) (l :: p) := by
+  refine ⟨fun l' hl => ?_, fun l' hl => ?_⟩
+  · simp only [Ctx.push] at hl ⊢
+    exact ⟨List.mem_cons_of_mem _ (h.1 l' hl).1, (h.1 l' hl).2⟩
+  · simp only [Ctx.push, List.mem_cons] at hl ⊢
+    rcases hl with hl | hl
+    · exact Or.inl hl
+    · exact Or.inr (h.2 l' hl)
+
+mutual
+/-- EARLY ERRORS: outside the deviation region `continue_non_iteration_label`, otto's parse-time checks accept a
+    statement tree exactly when ES5 §12.7–12.9, §12.12, §12.14 make it legal — for every tree and every context that
+    can arise (invariant `Inv`). -/
+theorem early_eq : ∀ (s : S) (c : Ctx) (p : List Nat), Inv c p → devCont c p s = false → accepts c p s = earlyOK c p s
+  | .expr, _, _, _, _ => rfl
+  | .brk none, _, _, _, _ => rfl
+  | .brk (some _), _, _, _, _ => rfl
+  | .cont none, _, _, _, _ => rfl
+  | .cont (some l), c, p, hi, hd => by
+    simp only [devCont] at hd
+    simp only [accepts, earlyOK]
+    cases hil : c.iterLabels.contains l
+    · simp [hil] at hd
+      cases h1 : c.labels.contains l <;> cases h2 : c.inIter <;> simp_all
+    · have := hi.1 l (by simpa using hil)
+      have h1 : c.labels.contains l = true := by simpa using this.1
+      simp [this.1, this.2]
+  | .ret, _, _, _, _ => rfl
+  | .block b, c, p, hi, hd => by
+    simp only [devCont] at hd
+    simp only [accepts, earlyOK]
+    exact earlyL_eq b c (inv_drop hi) hd
+  | .if1 t, c, p, hi, hd => by
+    simp only [devCont] at hd
+    simp only [accepts, earlyOK]
+    exact early_eq t c [] (inv_drop hi) hd
+  | .if2 t e, c, p, hi, hd => by
+    simp only [devCont, Bool.or_eq_false_iff] at hd
+    simp only [accepts, earlyOK]
+    rw [early_eq t c [] (inv_drop hi) hd.1, early_eq e c [] (inv_drop hi) hd.2]
+  | .loop k body, c, p, hi, hd => by
+    simp only [devCont] at hd
+    simp only [accepts, earlyOK]
+    exact early_eq body _ [] (inv_loop hi) hd
+  | .switch cl, c, p, hi, hd => by
+    simp only [devCont] at hd
+    simp only [accepts, earlyOK]
+    exact earlyL_eq cl _ (inv_switch hi) hd
+  | .try_ b none none, c, p, hi, hd => by
+    simp only [accepts, earlyOK]; simp
+  | .try_ b none (some y), c, p, hi, hd => by
+    have h1 : devContL c b = false := by cases h : devContL c b <;> simp_all [devCont]
+    have h2 : devContL c y = false := by cases h : devContL c y <;> simp_all [devCont]
+    simp only [accepts, earlyOK]
+    rw [earlyL_eq b c (inv_drop hi) h1, earlyL_eq y c (inv_drop hi) h2]
+  | .try_ b (some x) none, c, p, hi, hd => by
+    have h1 : devContL c b = false := by cases h : devContL c b <;> simp_all [devCont]
+    have h2 : devContL c x = false := by cases h : devContL c x <;> simp_all [devCont]
+    simp only [accepts, earlyOK]
+    rw [earlyL_eq b c (inv_drop hi) h1, earlyL_eq x c (inv_drop hi) h2]
+  | .try_ b (some x) (some y), c, p, hi, hd => by
+    have h1 : devContL c b = false := by cases h : devContL c b <;> simp_all [devCont]
+    have h2 : devContL c x = false := by cases h : devContL c x <;> simp_all [devCont]
+    have h3 : devContL c y = false := by cases h : devContL c y <;> simp_all [devCont]
+    simp only [accepts, earlyOK]
+    rw [earlyL_eq b c (inv_drop hi) h1, earlyL_eq x c (inv_drop hi) h2, earlyL_eq y c (inv_drop hi) h3]
+  | .with_ b, c, p, hi, hd => by
+    simp only [devCont] at hd
+    simp only [accepts, earlyOK]
+    exact early_eq b c [] (inv_drop hi) hd
+  | .label l s, c, p, hi, hd => by
+    simp only [devCont] at hd
+    simp only [accepts, earlyOK]
+    rw [early_eq s _ _ (inv_push hi l) hd]
+  | .fn body, c, p, hi, hd => by
+    simp only [devCont] at hd
+    simp only [accepts, earlyOK]
+    exact earlyL_eq body _ (inv_fn c) hd
+theorem earlyL_eq : ∀ (sl : SL) (c : Ctx), Inv c [] → devContL c sl = false → acceptsL c sl = earlyOKL c sl
+  | .nil, _, _, _ => rfl
+  | .cons s r, c, hi, hd => by
+    simp only [devContL, Bool.or_eq_false_iff] at hd
+    simp only [acceptsL, earlyOKL]
+    rw [early_eq s c [] hi hd.1, earlyL_eq r c hi hd.2]
+end
+
+/-- the statement asked for: whatever the parser accepts (outside the region) satisfies the ES5 early-error rules,
+    for a whole program (empty initial context) -/
+theorem early_errors (prog : SL) (hd : devContL {} prog = false) (h : acceptsL {} prog = true) : earlyOKL {} prog = true := by
+  rw [← earlyL_eq prog {} ⟨by simp, by simp⟩ hd]; exact h
+
+/-- and conversely: nothing legal is rejected by these checks -/
+theorem early_complete (prog : SL) (hd : devContL {} prog = false) (h : earlyOKL {} prog = true) : acceptsL {} prog = true := by
+  rw [earlyL_eq prog {} ⟨by simp, by simp⟩ hd]; exact h
+
+/-- witness of the region: `a: { while (1) { continue a; } }` -/
+def wContLabel : SL := .cons (.label 0 (.block (.cons (.loop .while_ (.block (.cons (.cont (some 0)) .nil))) .nil))) .nil
+example : devContL {} wContLabel = true ∧ acceptsL {} wContLabel = true ∧ earlyOKL {} wContLabel = false := by decide
+/-- non-vacuity: `a: while (1) { switch (1) { case 1: continue a; } }` is legal and outside the region; the seeded
+    `a: switch (1) { case 1: continue a; }` is illegal for both -/
+example : let p : SL := .cons (.label 0 (.loop .while_ (.block (.cons (.switch (.cons (.cont (some 0)) .nil)) .nil)))) .nil
+    devContL {} p = false ∧ acceptsL {} p = true ∧ earlyOKL {} p = true := by decide
+example : let p : SL := .cons (.label 0 (.switch (.cons (.cont (some 0)) .nil))) .nil
+    devContL {} p = false ∧ acceptsL {} p = false ∧ earlyOKL {} p = false := by decide
 
 end OttoVerif.C04.Thm
